@@ -24,6 +24,8 @@ fn main() {
         "epoch" => drivers::epoch::run(&mut rng, thorough, &mut t),
         "farm" => drivers::farm::run(&mut rng, thorough, &mut t),
         "pool" => drivers::pool::run(&mut rng, thorough, &mut t),
+        "fault" => drivers::fault::run(&mut rng, thorough, &mut t),
+        "auth" => drivers::auth::run(&arg("--edges").expect("--edges"), &mut t),
         "stable" => drivers::pool::run_stable(&mut rng, thorough, &mut t),
         "farm_replay" => drivers::farm_replay::run(
             &arg("--behaviours").expect("--behaviours"),
